@@ -32,7 +32,7 @@ EXPLANATION = (
     "the sign bit of the compared width (the masked value is then negative and a set bit reads as clear); (6) a "
     "per-lane counter `acc = sub_epiN(acc, cmpeq(...))` is flushed after at most 2^(N-1)-1 iterations when the "
     "flush reads the lanes as signed (madd_epi16, cvtepi16), 2^N-1 when unsigned. "
-    "Decides these clauses, not equality of outputs with the scalar definition; ARM kernels are "
+    "(7) a comparison on a vector filled by a zero-masking load is itself masked or its result is used only after `& mask` (R23.masked-tail): the lanes outside the tail hold 0 and would otherwise answer whenever the compared value is 0. Decides these clauses, not equality of outputs with the scalar definition; ARM kernels are "
     "not part of this build.")
 
 DP = "src/simd/dispatch.c"
